@@ -18,6 +18,7 @@ prop(
     level="proof",
     design_ref="DESIGN.md section 3, C11",
     groups=[(["./plugin/input/http"], r"^\(\*Plugin\)\.(processChunk|processBulk|newReadBuff|newEventBuffs|serveBulk|getSourceID|putSourceID)$")],
+    canaries=[("./plugin/input/http", "replay/C11/zz_content_encoding_case_test.go", "TestVerifContentEncodingAnyCase")],
     claim=(
         "For every request body, every chunking of it into reads (io.Reader.Read may return any n) and every buffer state, "
         "each call of the pipeline's In() made by processBulk/processChunk receives exactly the next newline-separated line of the body "
